@@ -292,7 +292,7 @@ func (a *Act) fnEnv(fn *ssa.Function, params []Val, free []Val, cur, old *State,
 						return SVal{T: free[i].T, Typ: et, Sort: a.u.D.SortOf(et), AtRef: true}, true
 					}
 					h, hs := a.u.D.CellHeap(et)
-					return SVal{T: sel(st.heap(h, hs), free[i].T), Typ: et, Sort: a.u.D.SortOf(et)}, true
+					return SVal{T: hsel(st.u, st.heap(h, hs), free[i].T), Typ: et, Sort: a.u.D.SortOf(et)}, true
 				}
 				if "&"+fv.Name() == name {
 					return SVal{T: free[i].T, Typ: fv.Type(), Sort: "Ref"}, true
@@ -454,7 +454,7 @@ func (a *Act) lookupVarFrom(st *State, b *ssa.BasicBlock, name string, includeSe
 				return SVal{T: v.T, Typ: et, Sort: d.SortOf(et), AtRef: true}, true
 			}
 			h, hs := d.CellHeap(et)
-			return SVal{T: sel(st.heap(h, hs), v.T), Typ: et, Sort: d.SortOf(et)}, true
+			return SVal{T: hsel(st.u, st.heap(h, hs), v.T), Typ: et, Sort: d.SortOf(et)}, true
 		}
 	}
 	// walk up the dominator tree
@@ -623,7 +623,7 @@ func (a *Act) havocTargets(st, pre *State, penv *Env, callee *ssa.Function, fc *
 	for _, name := range order {
 		t := byHeap[name]
 		old := st.heap(name, t.lh.sort)
-		nh := u.D.Fresh(name, t.lh.sort)
+		nh := u.FreshHeap(name, t.lh.sort)
 		var cs []Term
 		cs = append(cs, app("<", app("rid", "r"), pre.alloc))
 		for _, p := range t.preds {
